@@ -933,7 +933,7 @@ func jsn6NoAliasOfInput(c *Ctx) {
 				return aliasOf(x.X, depth+1)
 			case *ssa.Call:
 				// bytes.TrimSpace and friends return a sub-slice of their argument
-				if callee := x.Call.StaticCallee(); callee != nil && callee.Pkg != nil && callee.Pkg.Pkg.Path() == "bytes" && strings.HasPrefix(callee.Name(), "Trim") && len(x.Call.Args) > 0 {
+				if callee := x.Call.StaticCallee(); callee != nil && callee.Pkg != nil && callee.Pkg.Pkg.Path() == "bytes" && strings.HasPrefix(publicName(callee), "Trim") && len(x.Call.Args) > 0 {
 					return aliasOf(x.Call.Args[0], depth+1)
 				}
 			}
@@ -1258,11 +1258,11 @@ func jsn4WholeInput(c *Ctx) {
 			if callee == nil || callee.Pkg == nil || callee.Pkg.Pkg.Path() != "encoding/json" {
 				continue
 			}
-			if callee.Name() == "Unmarshal" {
+			if publicName(callee) == "Unmarshal" {
 				nUnmarshal++
 				continue
 			}
-			if callee.Name() != "Decode" || len(ci.Common().Args) < 1 {
+			if publicName(callee) != "Decode" || len(ci.Common().Args) < 1 {
 				continue
 			}
 			nDecode++
